@@ -328,3 +328,79 @@ Proof.
     exists d, F. split; [exact Ed|]. split; [exact A|]. rewrite <- Et0. exact B. }
   destruct (invoke_cases _ _ _ _ _ _ _ _ H) as [(_ & N)|(req' & X)]; [exfalso; exact (N rs HS)|exact (R req' X)].
 Qed.
+
+(* ---- C02 for a whole invocation ---- *)
+Definition Inv2_i := Inv2' DI digest_i.
+
+Theorem invoke_keeps_invariant2 pick defs vars s f req s' ob : Inv2_i s -> invoke pick defs vars s f req = (s', ob) -> Inv2_i s'.
+Proof.
+  intros HI. unfold invoke.
+  assert (R : forall req0 x, run_req pick defs s f req0 = x -> Inv2_i (fst x)).
+  { intros req0 x <-. unfold run_req. destruct (run_order pick _ req0) as [order|e]; [|exact HI].
+    match goal with |- context [run_i _ _ _ ?o] => set (otasks := o) end.
+    assert (X : Inv2_i (apply_op_i s (RunOp (f_force f) (beh_of defs) otasks))) by (apply (apply_op_inv2 DI deqb_i None digest_i); [exact I|exact HI]).
+    destruct (rr_out DI (run_i (f_force f) (beh_of defs) s otasks)); exact X. }
+  destruct (f_quiet f && f_debug f); [intros H; inversion H; subst; exact HI|].
+  destruct (f_vars f); [intros H; inversion H; subst; exact HI|].
+  destruct (f_clean f).
+  { destruct (has_task defs clean_name); intros H; [exact (R _ _ H)|].
+    assert (E : s' = apply_op_i s RemoveCache) by (inversion H; reflexivity). rewrite E.
+    apply (apply_op_inv2 DI deqb_i None digest_i); [exact I|exact HI]. }
+  destruct (f_show f); [intros H; inversion H; subst; exact HI|].
+  destruct req as [|r0 req].
+  - destruct (has_task defs default_name); intros H; [exact (R _ _ H)|inversion H; subst; exact HI].
+  - intros H. exact (R _ _ H).
+Qed.
+
+Lemma same_name_same_elt {A} (g : A -> nat) (l : list A) a b : NoDup (map g l) -> In a l -> In b l -> g a = g b -> a = b.
+Proof.
+  induction l as [|x l IH]; intros ND Ha Hb E; [destruct Ha|]. cbn [map] in ND. inversion ND as [|? ? Hx ND']; subst.
+  destruct Ha as [<-|Ha], Hb as [<-|Hb]; try reflexivity.
+  - exfalso. apply Hx. rewrite E. apply in_map. exact Hb.
+  - exfalso. apply Hx. rewrite <- E. apply in_map. exact Ha.
+  - apply IH; assumption.
+Qed.
+
+(* C02 at the command line: in a history without kills or torn cache files, an unforced invocation reports every selected
+   task that has at least one dependency file, and whose last successful completion was on exactly its current inputs, as
+   skipped, and does not execute it - whatever the other tasks of the invocation do *)
+Theorem invocation_skip_complete pick defs vars s f req s' ob rs r d F :
+  (forall k l, Permutation (pick k l) l) -> Inv2_i s -> f_force f = false ->
+  invoke pick defs vars s f req = (s', ob) -> ob_stdout ob = SDJson rs -> In r rs ->
+  find_def defs (tr_name r) = Some d -> inputs_of (files DI s) (to_task d) = Some F -> F <> [] -> last_ok DI s (tr_name r) = Some F ->
+  tr_skipped r = true /\ ~ In (tr_name r) (ob_executed ob).
+Proof.
+  intros Hpick HI Hf H HS Hr Hd HF Hne HL.
+  assert (R : forall req0, run_req pick defs s f req0 = (s', ob) -> tr_skipped r = true /\ ~ In (tr_name r) (ob_executed ob)).
+  { clear H. intros req0. unfold run_req. destruct (run_order pick _ req0) as [order|e] eqn:Eo; [|intros X; inversion X; subst; discriminate].
+    match goal with |- context [run_i _ _ _ ?o] => set (otasks := o) end. rewrite Hf.
+    destruct (rr_out DI (run_i false (beh_of defs) s otasks)) as [rs0|e] eqn:Er; [|intros X; inversion X; subst; discriminate].
+    intros X. inversion X; subst s' ob. clear X.
+    assert (Hex : forall g a b, ob_executed (run_tasks_obs g a b) = b).
+    { intros g a b0. unfold run_tasks_obs. destruct (report a) as [ms [[[t c] s0]|]]; reflexivity. }
+    rewrite Hex.
+    assert (Ers : rs = map (mk_res defs) rs0).
+    { unfold run_tasks_obs in HS. destruct (report (map (mk_res defs) rs0)) as [ms [[[t c] s0]|]]; cbn [ob_stdout] in HS.
+      - destruct (visible f); discriminate.
+      - destruct (f_json f); [inversion HS; reflexivity|destruct (visible f); discriminate]. }
+    subst rs. apply in_map_iff in Hr. destruct Hr as (r0 & <- & Hr0). cbn [mk_res tr_skipped tr_name] in *.
+    pose proof (run_results_names DI deqb_i None digest_i false (beh_of defs) s otasks rs0 Er) as Nn.
+    assert (Hn : In (r_task r0) (map tname otasks)) by (rewrite <- Nn; apply in_map; exact Hr0).
+    apply in_map_iff in Hn. destruct Hn as (t & Et & Ht).
+    assert (ND : NoDup (map tname otasks)).
+    { unfold otasks. rewrite otasks_names. apply NoDup_filter_nat.
+      destruct (run_order_sound pick Hpick _ _ _ Eo) as (ND & _). exact ND. }
+    assert (Etd : t = to_task d).
+    { unfold otasks in Ht. apply in_flat_map in Ht. destruct Ht as (n & _ & Ht). destruct (find_def defs n) as [d'|] eqn:Ed; [|destruct Ht].
+      destruct Ht as [<-|[]]. cbn [to_task tname] in Et. rewrite (find_def_name _ _ _ Ed) in Et. subst n. rewrite Ed in Hd. inversion Hd. reflexivity. }
+    subst t.
+    destruct (skip_complete DI deqb_i None digest_i deqb_i_spec digest_i_ne (beh_of defs) s otasks HI ND (to_task d) F Ht HF Hne) as [NE SK].
+    { rewrite Et. exact HL. }
+    specialize (SK rs0 Er). split.
+    - assert (E : r0 = skipped_res (to_task d)).
+      { assert (ND2 : NoDup (map r_task rs0)) by (rewrite Nn; exact ND).
+        apply (same_name_same_elt r_task rs0 r0 (skipped_res (to_task d)) ND2 Hr0 SK). unfold skipped_res. cbn [r_task]. symmetry. exact Et. }
+      rewrite E. reflexivity.
+    - rewrite <- Et. exact NE. }
+  destruct (invoke_cases _ _ _ _ _ _ _ _ H) as [(_ & N)|(req' & X)]; [exfalso; exact (N rs HS)|exact (R req' X)].
+Qed.
